@@ -18,14 +18,14 @@ PROPS = {
     },
 }
 
-GEN = "seeded generator over scheme configurations (max/supported degree, enforced bound lists, hiding support, num_vars), polynomial shapes (full, random, zero, constant, low-order zeros, top monomial, sparse / mixed monomials), in-domain (degree bound, hiding bound) pairs with tight (bound == degree, including bound 0 for constants), loosest and arbitrary bounds and degrees at the maximum / one below / around powers of two, univariate Ligero sizes on both sides of the 2-row / 4-row matrix boundary, hostile query sets (several polynomials per point label, labels sharing a point value, one polynomial at many points, label orders differing from insertion order) and list permutations; 11 schemes (Marlin, Sonic, IPA, PST13, Hyrax, univariate/multilinear Ligero, Brakedown through the trait; KZG10, multilinear PST, streaming KZG directly; thorough adds BLS12-377 instances). API surface: the library calls are made with slices / plain iterators, with lazy iterators without a length hint (every second call) and, where nothing needs randomness, without an RNG (every fourth call). In C01, C02, C03, C05, C06, C08, C10, C11, C12 and C18 half of the linear-code worlds come from the public parameter constructors (security level 64 / 100 / 128, inverse rate 2..8 including non-powers of two, well-formedness check on / off) instead of setup / trim; hiding support is drawn up to the supported and the maximum degree. Workloads named `<scheme>/large` repeat the same cases on configurations beyond a thousand coefficients (univariate 1023..2100 / thorough ..4200, 10 or 12 variables, PST13 4 variables of degree 11). "
+GEN = "seeded generator over scheme configurations (max/supported degree, enforced bound lists, hiding support, num_vars), polynomial shapes (full, random, zero, constant, low-order zeros, top monomial, sparse / mixed monomials), in-domain (degree bound, hiding bound) pairs with tight (bound == degree, including bound 0 for constants), loosest and arbitrary bounds and degrees at the maximum / one below / around powers of two, univariate Ligero sizes on both sides of the 2-row / 4-row matrix boundary, hostile query sets (several polynomials per point label, labels sharing a point value, one polynomial at many points, label orders differing from insertion order) and list permutations; 11 schemes (Marlin, Sonic, IPA, PST13, Hyrax, univariate/multilinear Ligero, Brakedown through the trait; KZG10, multilinear PST, streaming KZG directly; thorough adds BLS12-377 instances). API surface: in a quarter of the scenarios the committer / verifier keys, in another quarter the commitments, are copies that went through canonical serialization (all four compress / validate modes); the library calls are made with slices / plain iterators, with lazy iterators without a length hint (every second call) and, where nothing needs randomness, without an RNG (every fourth call). In C01, C02, C03, C05, C06, C08, C10, C11, C12 and C18 half of the linear-code worlds come from the public parameter constructors (security level 64 / 100 / 128, inverse rate 2..8 including non-powers of two, well-formedness check on / off) instead of setup / trim; hiding support is drawn up to the supported and the maximum degree. Workloads named `<scheme>/large` repeat the same cases on configurations beyond a thousand coefficients (univariate 1023..2100 / thorough ..4200, 10 or 12 variables, PST13 4 variables of degree 11). "
 DIST = " Distinct = distinct SHA-256 hashes of (scheme, class, full case descriptor); a case is non-trivial when its oracle preconditions held (skipped cases are reported separately and never counted)."
 
 PROPS.update({
     "C01": {
         "title": "Completeness",
-        "rule": GEN + "Oracle: every call of the honest pipeline (setup, trim, commit, batch_open, open) succeeds and batch_check / check (two verifier seeds) accept the true values; prover and verifier start from clones of one pre-seeded recording sponge. In this check one point coordinate in eight is a special field element (0, 1, -1, 2)." + DIST,
-        "required_classes": ["batch-accept", "single-accept"],
+        "rule": GEN + "Oracle: every call of the honest pipeline (setup, trim, commit, batch_open, open) succeeds and batch_check / check (two verifier seeds) accept the true values; prover and verifier start from clones of one pre-seeded recording sponge. In this check one point coordinate in eight is a special field element (0, 1, -1, 2). Directed search (IPA): for a fixed degree-3 instance the harness hashes 24 million (thorough 80 million) candidate points per case itself to find the point whose first Fiat-Shamir round challenge needs the most digests (rejection sampling; 8..9 digests reached) and requires the honest opening there to be accepted." + DIST,
+        "required_classes": ["batch-accept", "single-accept", "deep-challenge-retry"],
         "technique": "runtime monitoring: generated hostile honest workloads, outcome oracle at the API boundary",
         "level_text": "Exploration of the honest configuration space with an accept-oracle at the client boundary; library panics are contained per call and classified. Thousands of transcripts per scheme in the thorough tier, covering every (bound, hiding, shape, query-shape, permutation) feature counted in evidence.observed_counters.",
         "design_ref": "5 (C01)",
@@ -105,7 +105,7 @@ PROPS.update({
 PROPS.update({
     "C11": {
         "title": "Transcript lock-step",
-        "rule": GEN + "Histories of 2..6 operations drawn from {open(k polys), batch_open(query set), open_combinations(LC)} proved on ONE recording sponge pre-seeded with arbitrary bytes and verified in the same order on an identically initialised sponge. Oracles: every check accepts; after every prefix the two sponge states are equal (two field elements squeezed from clones); a proof verified after an extra absorb on the verifier side, or an operation (statement + proof) verified at another position of the history, is not accepted when the operation involves a non-constant polynomial (else skipped; also skipped for linear-code proofs bound through a few column positions only: well-formedness off and fewer than 64 coefficients). Marlin, Sonic, PST13 and IPA additionally run a three-operation history on Poseidon sponges over a DIFFERENT prime field (252 / 253 / 255 bit) - the schemes that absorb field elements cannot use such a sponge." + DIST,
+        "rule": GEN + "Histories of 2..6 operations drawn from {open(k polys), batch_open(query set), open_combinations(LC)} proved on ONE recording sponge pre-seeded with arbitrary bytes and verified in the same order on an identically initialised sponge. Oracles: every check accepts; after every prefix the two sponge states are equal (two field elements squeezed from clones); a proof verified after an extra absorb on the verifier side, or an operation (statement + proof) verified at another position of the history, is not accepted when the operation involves a non-constant polynomial (else skipped; also skipped for linear-code proofs bound through a few column positions only: well-formedness off and fewer than 64 coefficients). Combinations of shapes a scheme may refuse (one degree-bounded polynomial plus a constant, twice a bounded polynomial) are proved at the end of the history: if the prover answers, the verifier must accept in lock-step. Marlin, Sonic, PST13 and IPA additionally run a three-operation history on Poseidon sponges over a DIFFERENT prime field (252 / 253 / 255 bit) - the schemes that absorb field elements cannot use such a sponge." + DIST,
         "required_classes": ["lock-step-accept", "lock-step-state", "different-prestate-rejected", "moved-proof-rejected", "lock-step-accept[foreign-field-sponge]", "lock-step-state[foreign-field-sponge]"],
         "technique": "runtime monitoring: operation histories on a recording sponge, state-equality oracle after every prefix + transcript-binding reject-oracle",
         "level_text": "History exploration (sequences, not single calls): the sponge is the only state that crosses calls, and it is caller-owned, so wrapping it observes every absorb/squeeze of both sides without touching the implementation.",
@@ -123,8 +123,8 @@ PROPS.update({
     },
     "C13": {
         "title": "Column openings of the code-based schemes",
-        "rule": "(a) calculate_t (hook H1) on seeded (lambda in 1..256, distance (rho-1)/rho for rho=2..16 and Brakedown's 61000/1521000, n: small, geometric ladder to 2^41, near powers of 256, and near the field-size boundary lambda+log2 n ~ bits) over four fields (252/253/255/381 bits), compared with an exact big-integer evaluation of 2(1-d/2)^t + n/|F| <= 2^-lambda at t and t-1 with the true modulus (and, for classification only, with |F|:=2^bits). (b) honest proofs of univariate / multilinear Ligero (sec_param x rho_inv grid through the public constructor) and Brakedown, degrees up to 6000 / 13 variables: column and path count == t, leaf indices == the harness's derivation from the recorded squeeze_bytes events, inside the codeword, byte width covers the codeword, every column authenticated against the root by an independent path computation; verifier side: on an honest proof (true value) the later copy of a column at a position opened twice is shifted inside the kernel of the linear tests (b, and r with well-formedness), path kept - not accepted. (c) reported distance == constructor arguments. (d) encode linear, zero-preserving, of the declared length. (e) parameter sets for which no t exists are refused." + DIST,
-        "required_classes": ["calculate-t-minimal", "column-count", "column-positions", "columns-authenticated", "encode-linear", "distance-reported", "duplicate-position-authenticated"],
+        "rule": "(a0) distances (53-bit rationals) whose exact quotient (lambda+1)/-log2(1-d/2) lies 1e-6..1e-10 above or below an integer k: the returned t must be the exact minimum (quotients within 1e-10 of an integer are tallied separately: the library computes in f64, finding F14). (a) calculate_t (hook H1) on seeded (lambda in 1..256, distance (rho-1)/rho for rho=2..16 and Brakedown's 61000/1521000, n: small, geometric ladder to 2^41, near powers of 256, and near the field-size boundary lambda+log2 n ~ bits) over four fields (252/253/255/381 bits), compared with an exact big-integer evaluation of 2(1-d/2)^t + n/|F| <= 2^-lambda at t and t-1 with the true modulus (and, for classification only, with |F|:=2^bits). (b) honest proofs of univariate / multilinear Ligero (sec_param x rho_inv grid through the public constructor) and Brakedown, degrees up to 6000 / 13 variables: column and path count == t, leaf indices == the harness's derivation from the recorded squeeze_bytes events, inside the codeword, byte width covers the codeword, every column authenticated against the root by an independent path computation; verifier side: on an honest proof (true value) the later copy of a column at a position opened twice is shifted inside the kernel of the linear tests (b, and r with well-formedness), path kept - not accepted. (c) reported distance == constructor arguments. (d) encode linear, zero-preserving, of the declared length. (e) parameter sets for which no t exists are refused." + DIST,
+        "required_classes": ["calculate-t-minimal", "column-count", "column-positions", "columns-authenticated", "encode-linear", "distance-reported", "duplicate-position-authenticated", "calculate-t-minimal[quotient-near-an-integer]"],
         "technique": "runtime monitoring: exact-rational oracle on a hooked pure function + structural monitor over mirrored proofs and the recorded sponge trace",
         "level_text": "The floating-point column-count formula is compared with exact arithmetic on 10^4 (quick) to 10^6 (thorough) parameter points including the numerically critical region, and every generated proof is checked to carry exactly that many authenticated, transcript-derived columns.",
         "design_ref": "5 (C13)",
@@ -135,8 +135,8 @@ PROPS.update({
 PROPS.update({
     "C03": {
         "title": "Evaluation binding against crafted and malformed proofs",
-        "rule": "Finite attack catalogue, every entry a case class with a false claimed value (recomputed truth): (generic, all 8 trait schemes) library prover run on (q, state_q) against commitment(p); honest proof for (p, z') replayed at z; honest proof for commitment(q) presented for commitment(p); empty batch proof list. (Marlin/Sonic/PST13) each proof component replaced (random / identity witness, random / dropped blinding value), PST13 witness list shorter / longer / empty. (Hyrax) inner proof list empty / truncated, z stretched / shortened, com_eval replaced by a fresh commitment to the claimed value, z_d changed. (IPA, check and batch_check) rounds missing / extra random / uneven, c and final key replaced, and the identity-padding attack: the harness's own IPA prover run on the key padded with identity elements to 2^(log d + k), k=1,2, with the extra coefficient chosen so that the inner product equals the false value. (Ligero/Brakedown, through mirror structs, with the verifier transcript simulated to derive the opened indices) opening vector altered; proof consistent with another matrix (its own paths / honest paths of the committed tree / altered sibling); opening and well-formedness vectors stretched to the codeword length by solving E'(v')[j]=E(v)[j] for all j with Gaussian elimination over the public encode; well-formedness absent; columns repeated / shifted / truncated; paths swapped. (Hyrax) the proofs of two different polynomials of one opening swapped. (Marlin, Sonic, PST13, IPA batch_check) honest batch proof over 3..4 point labels with a pair of false values (d, -d*xi_1/xi_2) on two point labels, one pair per pair of labels. Sanity classes confirm that harness-built honest proofs are accepted." + DIST,
-        "required_classes": ["foreign-state-proof", "replayed-other-point", "foreign-commitment-proof", "rounds-extra-identity-padding", "stretched-opening-vector", "inner-proof-list-empty", "opening-vector-altered", "harness-built-honest-proof-accepted", "harness-prover-sanity", "proof-elements-swapped", "honest-proof-cancelling-values[across-points]"],
+        "rule": "Finite attack catalogue, every entry a case class with a false claimed value (recomputed truth): (generic, all 8 trait schemes) library prover run on (q, state_q) against commitment(p); honest proof for (p, z') replayed at z; honest proof for commitment(q) presented for commitment(p); empty batch proof list. (Marlin/Sonic/PST13) each proof component replaced (random / identity witness, random / dropped blinding value), PST13 witness list shorter / longer / empty. (Hyrax) inner proof list empty / truncated, z stretched / shortened, com_eval replaced by a fresh commitment to the claimed value, z_d changed. (IPA, check and batch_check) rounds missing / extra random / uneven, c and final key replaced, and the identity-padding attack: the harness's own IPA prover run on the key padded with identity elements to 2^(log d + k), k=1,2, with the extra coefficient chosen so that the inner product equals the false value. (Ligero/Brakedown, through mirror structs, with the verifier transcript simulated to derive the opened indices) opening vector altered; opening vector and well-formedness vector altered by +delta / -delta (cancelling in the sum of the two column tests); proof consistent with another matrix (its own paths / honest paths of the committed tree / altered sibling); opening and well-formedness vectors stretched to the codeword length by solving E'(v')[j]=E(v)[j] for all j with Gaussian elimination over the public encode; well-formedness absent; columns repeated / shifted / truncated; paths swapped. (Hyrax) the proofs of two different polynomials of one opening swapped. (Marlin, Sonic, PST13, IPA batch_check) honest batch proof over 3..4 point labels with a pair of false values (d, -d*xi_1/xi_2) on two point labels, one pair per pair of labels. Sanity classes confirm that harness-built honest proofs are accepted." + DIST,
+        "required_classes": ["foreign-state-proof", "replayed-other-point", "foreign-commitment-proof", "rounds-extra-identity-padding", "stretched-opening-vector", "inner-proof-list-empty", "opening-vector-altered", "harness-built-honest-proof-accepted", "harness-prover-sanity", "proof-elements-swapped", "honest-proof-cancelling-values[across-points]", "opening-and-well-formedness-vectors-cancelling"],
         "technique": "runtime monitoring: adversarial workload (attack catalogue incl. harness-side provers and linear-system solving), reject-oracle",
         "level_text": "A catalogue, not a proof of soundness: held on K attacks of the listed classes. It reaches what tests cannot because the proofs are not produced by the honest prover: the harness rebuilds crate-private proof types through their serialization, runs its own IPA prover and solves for stretched Ligero vectors.",
         "design_ref": "5 (C03)",
@@ -192,7 +192,7 @@ PROPS.update({
 PROPS.update({
     "C18": {
         "title": "Schedule and feature independence",
-        "rule": GEN + "Each case fixes a 32-byte seed from which ALL randomness of one complete execution derives (setup, trim, polynomials, commitment blinding, query set, prover and verifier RNG). The execution is repeated inside this process under rayon pools of 1, 2, 3, 6, 8, 16 (thorough: also 5, 7, 12) threads, 3 (quick) / 8 (thorough) more times at 16 threads and, in the thorough tier, under a 64-thread oversubscribed pool while 8 spinning threads load the machine; the driver additionally runs the same cases with the harness built WITHOUT the library's `parallel` feature. Compared: SHA-256 of the canonical serialization of universal parameters, committer / verifier key, every commitment and commitment state, batch proof, single proof, and the decisions of batch_check (true and false claim) and check. Oracle: all digests of all executions equal; cross-build digests equal key by key. Additional `<scheme>/large` cases run the same pipeline on polynomials with 1024..2100 (thorough ..4200) coefficients (boundary sizes 1023, 1024, 1025, 2047, 2048 over-represented), 10 / 12 variables, PST13 with 4 variables of degree 11, under pools of 1, 2, 3, 5, 7, 16 threads, because size thresholds of parallel code paths lie far above the small scenarios. A case is one seed; non-trivial = at least 7 executions compared in the parallel build." + DIST,
+        "rule": GEN + "Each case fixes a 32-byte seed from which ALL randomness of one complete execution derives (setup, trim, polynomials, commitment blinding, query set, prover and verifier RNG). The execution is repeated inside this process under rayon pools of 1, 2, 3, 16 and three (thorough: six) further sizes drawn per case from 4..24 threads, 3 (quick) / 8 (thorough) more times at 16 threads and, in the thorough tier, under a 64-thread oversubscribed pool while 8 spinning threads load the machine; the driver additionally runs the same cases with the harness built WITHOUT the library's `parallel` feature. Compared: SHA-256 of the canonical serialization of universal parameters, committer / verifier key, every commitment and commitment state, batch proof, single proof, and the decisions of batch_check (true and false claim) and check. Oracle: all digests of all executions equal; cross-build digests equal key by key. Additional `<scheme>/large` cases run the same pipeline on polynomials with 1024..2100 (thorough ..4200) coefficients (boundary sizes 1023, 1024, 1025, 2047, 2048 over-represented), 10 / 12 variables, PST13 with 4 variables of degree 11, under pools of 1, 2, 3, 5, 7, 16 threads, because size thresholds of parallel code paths lie far above the small scenarios. A case is one seed; non-trivial = at least 7 executions compared in the parallel build." + DIST,
         "required_classes": ["same-digests-across-thread-counts"],
         "technique": "runtime monitoring: differential determinism monitor across rayon pool sizes, repetitions, load, and the non-parallel build",
         "level_text": "Schedule independence is decided by observing many executions of identical seeded workloads under different worker counts and builds and comparing digests of everything the library returns; this is what a race detector cannot say for a data-race-free (forbid(unsafe)) crate whose possible nondeterminism lies in reduction order or hidden thread-local RNGs.",
